@@ -28,6 +28,10 @@ unsafe impl GlobalAlloc for Counting {
 
 thread_local! {
     static TICKS: RefCell<Vec<(String, isize, isize)>> = RefCell::new(Vec::new());
+    // summary mode (long loops): the log must not itself grow the heap it measures
+    static SUMMARY: RefCell<bool> = RefCell::new(false);
+    static COMPACT: RefCell<Vec<(isize, isize)>> = RefCell::new(Vec::new());
+    static FIRST_LAST: RefCell<(String, String)> = RefCell::new((String::new(), String::new()));
 }
 
 extern "C" {
@@ -50,7 +54,22 @@ pub fn host_factory<'a>() -> LibraryFactory<'a, f32> {
                         let marker = 0u8;
                         let addr = &marker as *const u8 as isize;
                         let live = LIVE.load(Ordering::Relaxed);
-                        TICKS.with(|t| t.borrow_mut().push((canon_value(&v), addr, live)));
+                        if SUMMARY.with(|s| *s.borrow()) {
+                            let first = COMPACT.with(|c| {
+                                let mut c = c.borrow_mut();
+                                c.push((addr, live));
+                                c.len() == 1
+                            });
+                            FIRST_LAST.with(|fl| {
+                                let mut fl = fl.borrow_mut();
+                                if first {
+                                    fl.0 = canon_value(&v);
+                                }
+                                fl.1 = canon_value(&v);
+                            });
+                        } else {
+                            TICKS.with(|t| t.borrow_mut().push((canon_value(&v), addr, live)));
+                        }
                         Ok(v)
                     },
                 )),
@@ -65,7 +84,7 @@ pub fn new_interpreter(mode: &str) -> Interpreter<'static, f32> {
     } else {
         Interpreter::<f32>::default()
     };
-    if mode.ends_with("+host") {
+    if mode.contains("+host") {
         it.register_library_factory(host_factory());
     }
     it
@@ -74,6 +93,15 @@ pub fn new_interpreter(mode: &str) -> Interpreter<'static, f32> {
 pub fn run(fields: Vec<String>) -> Vec<String> {
     on_fresh_thread(move || {
         TICKS.with(|t| t.borrow_mut().clear());
+        let summarize = fields[0].contains("+sum");
+        SUMMARY.with(|s| *s.borrow_mut() = summarize);
+        COMPACT.with(|c| {
+            let mut c = c.borrow_mut();
+            c.clear();
+            if summarize {
+                c.reserve(1 << 22);
+            }
+        });
         let mut it = new_interpreter(&fields[0]);
         // capture fd 1 while the forms run
         std::io::stdout().flush().ok();
@@ -94,9 +122,26 @@ pub fn run(fields: Vec<String>) -> Vec<String> {
         let ticks = TICKS.with(|t| t.borrow().clone());
         let base_addr = ticks.first().map(|t| t.1).unwrap_or(0);
         let base_live = ticks.first().map(|t| t.2).unwrap_or(0);
-        out.push(format!("T {}", ticks.iter().map(|t| t.0.clone()).collect::<Vec<_>>().join(" ")));
-        out.push(format!("S {}", ticks.iter().map(|t| (base_addr - t.1).to_string()).collect::<Vec<_>>().join(" ")));
-        out.push(format!("H {}", ticks.iter().map(|t| (t.2 - base_live).to_string()).collect::<Vec<_>>().join(" ")));
+        if summarize {
+            // long loops: tick count, first/last tick value, and only statistics of stack and heap
+            let compact = COMPACT.with(|c| c.borrow().clone());
+            let n = compact.len();
+            let (first, last) = FIRST_LAST.with(|fl| fl.borrow().clone());
+            out.push(format!("T n={} first={} last={}", n, first, last));
+            let a0 = compact.first().map(|t| t.0).unwrap_or(0);
+            let l0 = compact.first().map(|t| t.1).unwrap_or(0);
+            let s: Vec<isize> = compact.iter().map(|t| a0 - t.0).collect();
+            let from = if n > 2 { 2 } else { 0 };
+            let smax = s.iter().skip(from).max().cloned().unwrap_or(0);
+            let smin = s.iter().skip(from).min().cloned().unwrap_or(0);
+            out.push(format!("S min={} max={}", smin, smax));
+            let at = |i: usize| compact.get(i).map(|t| t.1 - l0).unwrap_or(0);
+            out.push(format!("H q1={} mid={} last={}", at(n / 4), at(n / 2), at(n.saturating_sub(1))));
+        } else {
+            out.push(format!("T {}", ticks.iter().map(|t| t.0.clone()).collect::<Vec<_>>().join(" ")));
+            out.push(format!("S {}", ticks.iter().map(|t| (base_addr - t.1).to_string()).collect::<Vec<_>>().join(" ")));
+            out.push(format!("H {}", ticks.iter().map(|t| (t.2 - base_live).to_string()).collect::<Vec<_>>().join(" ")));
+        }
         out.push(format!("O {}", esc(&captured)));
         out
     })
